@@ -885,6 +885,12 @@ theorem fresh_exec {s : St} {hs : List Op} (h : WF s) (hd : s.drains = true) (hf
   | cons op hs ih =>
     exact ih (wf_exec1 h hl.1) (by rw [exec1_drains h hl.1, hd]) (fresh_exec1 h hd hf hl.1) hl.2
 
+/-- sequential set-up: `k` listeners `0..k-1` created one after the other on thread 0 (`drains = true`, pool of 8) -/
+def setup (mx k : Nat) (f : Flavor) : St := exec (init mx 8 f true) (List.replicate k .create)
+
+theorem wf_setup (mx k : Nat) (f : Flavor) (h : LegalH (init mx 8 f true) (List.replicate k .create)) :
+    WF (setup mx k f) := wf_exec (wf_init _ _ _ _) h
+
 /-! ## delivery accounting per incarnation -/
 
 /-- every delivery is stamped with an incarnation that exists (`inc` only grows) -/
